@@ -160,27 +160,5 @@ theorem next_fuel (f1 f2 : Nat) (fb : FrameBuffer) (h1 : fb.data.length < 9 * f1
           | frame f => rfl
           | skip => simp only at hs ⊢; exact ih m fb' (by omega) (by omega)
 
-/-- a frame handed out by the iterator consumed at least nine bytes -/
-theorem next_shrinks (fuel : Nat) (fb : FrameBuffer) :
-    match next fuel fb with
-    | (.ok (some _), fb') => fb'.data.length + 9 ≤ fb.data.length
-    | (_, fb') => fb'.data.length ≤ fb.data.length := by
-  induction fuel generalizing fb with
-  | zero => simp [next]
-  | succ n ih =>
-    rw [next_succ]
-    have hs := next1_shrinks fb
-    cases hn : next1 fb with
-    | mk r fb' =>
-      rw [hn] at hs
-      cases r with
-      | error e =>
-        simp only
-        have : fb' = fb := by
-          unfold next1 updateHeaderBuffer at hn
-          sorry
-        omega
-      | ok o => sorry
-
 end FrameBuffer
 end H2
